@@ -650,10 +650,14 @@ func (w *World) lookup(s *Sub, rm *pubsubpb.ReceivedMessage, lo, hi time.Time) *
 }
 
 // propForMiss attributes a missing (must-be-offered) delivery.
-func propForMiss(d *Del) (string, string) {
+func propForMiss(d *Del, at time.Time) (string, string) {
 	switch {
 	case d.Forwarded && d.Attempts == 0:
 		return "C06", "forward-missing"
+	case d.Revived && !d.ExpBeforeRevive.Hi.IsZero() && at.After(d.ExpBeforeRevive.Hi):
+		// revived by a seek, offered while its *old* retention ran, gone once that
+		// ended: the retention was not counted from the seek
+		return "C14", "revived-message-gone-when-its-old-retention-ended"
 	case d.Revived:
 		return "C13", "seek-revived-missing"
 	case d.Attempts > 0 && (d.LeaseWhy == "nack" || d.LeaseWhy == "stream-nack"):
@@ -903,7 +907,7 @@ func (w *World) checkDeliveries(s *Sub, via string, rms []*pubsubpb.ReceivedMess
 	if assertMust && selectedAll {
 		for _, d := range mustSet {
 			if !got[d] {
-				p, sig := propForMiss(d)
+				p, sig := propForMiss(d, lo)
 				w.violate(p, sig, "%s on %s#%d at %s (max %d, returned %d) did not offer %s which must be deliverable%s%s", via, s.Name, s.Gen, ts(lo), capacity, len(rms), d, sameKey(d), w.rowDiag(d)+w.dueDiag(s, lo))
 				w.siblingBlame(d, sig, fmt.Sprintf("%s on %s did not offer %s", via, s.Name, d))
 				d.Lost = true
@@ -1338,6 +1342,7 @@ func (w *World) checkPrunedLegitimately(s *Sub, d *Del) {
 }
 
 func (w *World) revive(d *Del, at Iv) {
+	d.ExpBeforeRevive = d.Exp
 	d.State = Out
 	d.Lease = at
 	d.LeaseWhy = "seek"
